@@ -105,6 +105,16 @@ def run(prop, tier, verdict):
     sumfile = os.path.join(wd, 'summary.json')
     rc, out, err, wall = vlib.run_harness(binary, ['sess', '-in', scfile, '-out', trfile, '-summary', sumfile, '-seed', str(seedv)], timeout=1800)
     if rc != 0:
+        cr = vlib.crash_report(err)
+        if cr and cr[1] == 'repo':
+            # the real code crashed the whole process: that breaks every property of this engine
+            msg = cr[0]
+            verdict.report('%s:crash:%s' % (prop, msg[:80]), {'panic': msg, 'stack': err[err.find(msg):][:3000]},
+                           {'engine': 'sess', 'scenarios_file_content': open(scfile).read()[:200000], 'seed': seedv})
+            cov.update({'traces_validated_against_impl': 0, 'evaluations': len(scen), 'distinct_nontrivial': len(scen),
+                        'rule': 'driver process crashed by a panic inside the repository code', 'samples': [msg], 'crashed': True})
+            vlib.cleanup(wd)
+            return cov, time.time() - t0
         raise Broken('sess driver failed rc=%d: %s' % (rc, err[-2000:]))
     summ = json.load(open(sumfile))['scenarios']
     if len(summ) != len(scen):
